@@ -2004,7 +2004,10 @@ class KmipEngine(object):
         managed_object_factory = factory.ObjectFactory()
         try:
             managed_object = managed_object_factory.convert(secret)
-        except (TypeError, ValueError) as e:
+        except (AttributeError, TypeError, ValueError) as e:
+            # An object that lacks a field the server needs (for example a
+            # key block without cryptographic algorithm or length) surfaces
+            # as an AttributeError in the converter.
             raise exceptions.InvalidField(
                 "Cannot register the object: {0}".format(e)
             )
